@@ -1,5 +1,7 @@
 """C06 — IPSet is canonical after any history; equality is extensional.
-One case = one history over three live sets (harness/ipset_hist.py)."""
+One case = one history over three live sets (harness/ipset_hist.py).
+args = ('hist', ops) | ('hist', ops, 'raw'): a raw history goes to the model's op `ipset_raw` with its string /
+int / IPAddress arguments uncoerced (the model runs IPNetwork(x) / IPAddress(x) itself, Model/Coerce.lean)."""
 from common import Case
 import ipset_hist as H
 
@@ -7,11 +9,18 @@ ID = 'C06'
 RULE = ('random operation histories (1-12 ops quick, 1-30 thorough, plus seeding constructors and a final query) over '
         'three live IPSets; arguments clustered round hot windows at address 0, the top address, mid-space and the '
         'IPv6 integer 2^32, in every argument form (IPNetwork with host bits, str, int, IPAddress, IPRange, IPGlob, '
-        'IPSet, lists). non-trivial = distinct history none of whose steps raised')
+        'IPSet, lists); ~30% of the histories are raw: strings / ints / addresses reach the model uncoerced, with '
+        'netmask / hostmask strings, int query arguments and (2% of the arguments) an unparsable text or '
+        'out-of-range int whose step must raise and change nothing. non-trivial = distinct history none of whose '
+        'steps raised')
 
 
-def _case(ops, tag='history'):
-    return Case(None, tag, ('hist', ops))
+def _case(ops, tag='history', raw=False):
+    return Case(None, tag + ('/raw' if raw else ''), ('hist', ops) + (('raw',) if raw else ()))
+
+
+def is_raw(c):
+    return len(c.args) > 2 and c.args[2] == 'raw'
 
 
 def corpus():
@@ -26,17 +35,29 @@ def corpus():
         # sibling merges up to /0 and removal splitting it again
         _case((('add', 0, N(4, 0, 1)), ('add', 0, N(4, 1 << 31, 1)), ('rem', 0, N(4, 5, 32, 'int')),
                ('add', 0, N(4, 5, 32, 'addrstr')), ('q', 0, 0, N(4, 5, 32))), 'corpus/merge-up'),
+        # the same through the model's own coercion, every argument form; refused arguments change nothing
+        _case((('add', 0, N(4, 0, 1)), ('add', 0, N(4, 1 << 31, 1, 'maskstr')), ('rem', 0, N(4, 5, 32, 'int')),
+               ('add', 0, N(4, 5, 32, 'addrstr')), ('q', 0, 0, N(4, 5, 32, 'int'))), 'corpus/merge-up', raw=True),
+        _case((('new', 0, 'list', (N(4, 0x0a000005, 24, 'str'), N(4, 7, 32, 'int'), N(6, 1, 128, 'addr'),
+                                   N(4, 0x0a000105, 24, 'hoststr'))),
+               ('add', 0, N(4, 9, 32, 'bad')), ('rem', 0, N(4, 9, 32, 'badint')), ('upd', 0, 'list', (N(4, 1, 32, 'int'), N(4, 3, 32, 'bad'))),
+               ('new', 0, 'list', (N(4, 2, 32, 'badint'),)), ('upd', 0, 'arg', N(6, 1 << 32, 128, 'int')),
+               ('q', 0, 0, N(4, 0x0a000005, 32, 'addrstr'))), 'corpus/coerce', raw=True),
     ]
 
 
 def generate(rng, tier):
     n = 1500 if tier == 'quick' else 2500
-    return [_case(H.gen_history(rng, tier)) for _ in range(n)]
+    out = []
+    for _ in range(n):
+        raw = rng.random() < 0.3
+        out.append(_case(H.gen_history(rng, tier, raw), raw=raw))
+    return out
 
 
 def impl(c):
     ops = c.args[1]
-    obs, line, extras = H.run_impl(ops)
+    obs, line, extras = H.run_impl(ops, is_raw(c))
     c.line = line
     c.extra = extras
     return ';'.join(obs)
@@ -45,7 +66,7 @@ def impl(c):
 def _impl_extras(c):
     ex = c.extra
     if ex is None:
-        _, _, ex = H.run_impl(c.args[1])
+        _, _, ex = H.run_impl(c.args[1], is_raw(c))
     return ex
 
 
@@ -62,6 +83,10 @@ def oracle(c, got):
             if g.split(' ')[0] != e.split(' ')[0]:
                 return 'step %d %r: == gave %s but the sets %s the same addresses' % (
                     idx, op, g.split(' ')[0], 'contain' if e.split(' ')[0] == 'T' else 'do not contain')
+            continue
+        if e == H.RAISES:
+            if not g.startswith('!'):
+                return 'step %d %r: an argument no constructor accepts was taken, set shows %s' % (idx, op, g)
             continue
         if g != e:
             return 'step %d %r: set shows %s, the minimal host-bit-free CIDR list of the history is %s' % (idx, op, g, e)
@@ -100,12 +125,13 @@ def shrink(c, fails):
         while i >= 0 and budget > 0:
             cand = ops[:i] + ops[i + 1:]
             budget -= 1
-            if cand and fails(Case(None, c.tag, ('hist', tuple(cand)))):
+            if cand and fails(Case(None, c.tag, ('hist', tuple(cand)) + tuple(c.args[2:]))):
                 ops = cand
                 changed = True
             i -= 1
-    return Case(None, c.tag, ('hist', tuple(ops)))
+    return Case(None, c.tag, ('hist', tuple(ops)) + tuple(c.args[2:]))
 
 
 def repro(c):
-    return 'replay ops %r with harness/ipset_hist.py:run_impl (args built by build_arg)' % (c.args[1],)
+    return 'replay ops %r with harness/ipset_hist.py:run_impl%s (args built by build_arg)' % (
+        c.args[1], '(ops, raw=True)' if is_raw(c) else '')
